@@ -53,6 +53,17 @@ def _call_chunk(args):
     return [_call((fn, i)) for i in items]
 
 
+def run_fresh(fn, item):
+    """execute one work item in a freshly forked child (same conditions as inside the pool)"""
+    ctx = mp.get_context("fork")
+    pool = ctx.Pool(1, maxtasksperchild=1)
+    try:
+        return pool.apply(_call, ((fn, item),))
+    finally:
+        pool.terminate()
+        pool.join()
+
+
 def _call(args):
     fn, item = args
     try:
@@ -131,14 +142,17 @@ class Ctx:
                     self.capped = True
                     self.cap_note.append(f"budget hit after {self.items_done}/{self.items_total} items")
                     break
-                r = _call((fn, it))
+                r = run_fresh(fn, it)
                 self.items_done += 1
                 if absorb:
                     self.absorb(r)
                 out.append(r)
             return out
         ctx = mp.get_context("fork")
-        pool = ctx.Pool(min(self.workers, len(items)))
+        # every task (chunk of work items) runs in a freshly forked child of this process: library-level state
+        # (module caches, class attributes, shared default arguments) never leaks from one task into another, so a
+        # violation depends only on its own work item and re-executing that item reproduces it
+        pool = ctx.Pool(min(self.workers, len(items)), maxtasksperchild=1)
         try:
             chunksize = max(1, int(chunksize))
             chunks = [(fn, items[i:i + chunksize]) for i in range(0, len(items), chunksize)]
@@ -284,7 +298,7 @@ def main(argv=None):
     fn = getattr(mod, "replay_item", None) or getattr(mod, "run_item", None)
     for sig, rec, cnt in new[:40]:
         if fn is not None and rec.get("item") is not None:
-            r2 = _call((fn, rec["item"]))
+            r2 = run_fresh(fn, rec["item"])
             ok = "harness_error" not in r2 and any(
                 v["sig"] == sig and (rec.get("input") is None or v.get("input") == rec.get("input"))
                 for v in r2.get("viol") or [])
